@@ -266,6 +266,11 @@ class SliceV(Val):
   def __init__(self, lo, hi, step=None):
     self.lo, self.hi, self.step = lo, hi, step
 
+  def getattr(self, ctx, name):
+    if name in ('start', 'stop', 'step'):
+      return {'start': self.lo, 'stop': self.hi, 'step': self.step}[name]
+    raise Unsupported(f'slice.{name}')
+
   def __repr__(self):
     return f'SliceV({self.lo},{self.hi},{self.step})'
 
@@ -388,6 +393,16 @@ class OptV(Val):
   def compare(self, ctx, op, other):
     v = self._need(ctx, 'compare')
     return ctx.engine.compare(ctx, op, v, other)
+
+  def binop(self, ctx, op, other, reflected):
+    v = self._need(ctx, 'arithmetic')
+    if reflected:
+      return ctx.engine.binop(ctx, op, other, v)
+    return ctx.engine.binop(ctx, op, v, other)
+
+  @property
+  def term(self):
+    return self.val
 
 
 class Ref(Val):
